@@ -22,7 +22,18 @@ SecondClauses(r) ==
   \cup (IF r.exitB # 0 /\ r.histNewDuringB > 0 THEN {"C16_RefusedStartRecordedRun"} ELSE {})
   \cup (IF r.exitA # 0 \/ r.statusEnd # "finished" \/ r.statusEndErr # "" THEN {"C16_ActiveRunDisturbed"} ELSE {})
   \cup (IF r.runsThatExecuted = 0 THEN {"C16_NobodyRan"} ELSE {})
-Clauses(r) == IF r.kind = "kill" THEN KillClauses(r) ELSE SecondClauses(r)
+\* kind "truth": an unkilled run of the real binary: the status reported while it ran and the persisted final status
+\* against what the steps really did (marker file)
+TruthClauses(r) ==
+  (IF ~r.liveOK THEN {"C08_NotReportedRunningWhileInProgress"} ELSE {})
+  \cup (IF r.runStatus # r.wantRun \/ r.latestErr # "<nil>" THEN {"C08_FinalRunStatusWrong"} ELSE {})
+  \cup (IF \E i \in DOMAIN r.nodes : r.nodes[i].status # r.nodes[i].want THEN {"C08_FinalStepStateWrong"} ELSE {})
+  \cup (IF \E i \in DOMAIN r.nodes : r.nodes[i].executions # r.nodes[i].wantExecutions
+                                      \/ r.nodes[i].retryCount # (IF r.nodes[i].executions > 1 THEN r.nodes[i].executions - 1 ELSE 0)
+          THEN {"C08_AttemptsWrong"} ELSE {})
+  \cup (IF \E i \in DOMAIN r.nodes : r.nodes[i].executions > 0 /\ ~r.nodes[i].logExists THEN {"C08_LogPathMissing"} ELSE {})
+  \cup (IF \E i \in DOMAIN r.nodes : ~r.nodes[i].startNotAfterFinish THEN {"C08_StartAfterFinish"} ELSE {})
+Clauses(r) == IF r.kind = "kill" THEN KillClauses(r) ELSE IF r.kind = "truth" THEN TruthClauses(r) ELSE SecondClauses(r)
 Init == l = 1 /\ bad = 0
 Next == /\ l <= Len(Trace) /\ l' = l + 1
         /\ LET c == Clauses(R) IN IF c = {} THEN UNCHANGED bad
